@@ -67,6 +67,9 @@ type jScenario struct {
 	PutFault    map[int]string `json:"put_fault,omitempty"`
 	ReplayFault map[int]string `json:"replay_fault,omitempty"`
 	Prefix      []jMsg         `json:"prefix,omitempty"`
+	// PrefixGaps[i]: virtual ns slept before the i-th prefix publish; ValidTTL: TTL of a "valid:*" replayer (0 = one hour).
+	PrefixGaps []int64 `json:"prefix_gaps,omitempty"`
+	ValidTTL   int64   `json:"valid_ttl,omitempty"`
 	Subs        []jSub         `json:"subs"`
 	Pubs        []jPub         `json:"pubs"`
 	Shutdowns   []jShutdown    `json:"shutdowns,omitempty"`
@@ -190,7 +193,7 @@ func (h *hookState) fn(point string) {
 
 const jQuiet = 10 * time.Millisecond
 
-func buildReplayer(kind string) (sse.Replayer, error) {
+func buildReplayer(kind string, validTTL int64) (sse.Replayer, error) {
 	parts := strings.Split(kind, ":")
 	switch parts[0] {
 	case "rec", "none":
@@ -199,7 +202,11 @@ func buildReplayer(kind string) (sse.Replayer, error) {
 		n, _ := strconv.Atoi(parts[1])
 		return sse.NewFiniteReplayer(n, parts[2] == "auto")
 	case "valid":
-		return sse.NewValidReplayer(time.Hour, parts[1] == "auto")
+		ttl := time.Hour
+		if validTTL > 0 {
+			ttl = time.Duration(validTTL)
+		}
+		return sse.NewValidReplayer(ttl, parts[1] == "auto")
 	}
 	return nil, fmt.Errorf("unknown replayer %q", kind)
 }
@@ -246,7 +253,7 @@ func runJoe(t *testing.T, sc *jScenario) (tr *jTrace) {
 		joe := &sse.Joe{}
 		var rec *mon.RecReplayer
 		if sc.Replayer != "none" {
-			inner, err := buildReplayer(sc.Replayer)
+			inner, err := buildReplayer(sc.Replayer, sc.ValidTTL)
 			if err != nil {
 				panic(err)
 			}
@@ -299,6 +306,9 @@ func runJoe(t *testing.T, sc *jScenario) (tr *jTrace) {
 
 		// phase 0: prefix, published sequentially
 		for i, m := range sc.Prefix {
+			if i < len(sc.PrefixGaps) && sc.PrefixGaps[i] > 0 {
+				time.Sleep(time.Duration(sc.PrefixGaps[i]))
+			}
 			pt := &jPubTrace{Msg: m, Publisher: -1, Seq: i}
 			tr.Pubs = append(tr.Pubs, pt)
 			doPublish(pt, sc.newMessage(m))
